@@ -480,6 +480,18 @@ class UserActions(object):
 
     self._engine.invalidate_records(table_id, filled_row_ids, data_cols_to_recompute=recalc_cols)
 
+    # As in doBulkUpdateRecord: docactions.py prevents recalculation of trigger-formula columns
+    # that got an explicit value; a data-cleaning column (one that depends on itself) should
+    # still process the value it was given.
+    if not table_id.startswith('_grist_'):
+      for col_id in column_values:
+        col_obj = table.all_columns.get(col_id)
+        if col_obj is None or col_obj.is_formula() or not col_obj.has_formula():
+          continue
+        col_rec = self._docmodel.columns.lookupOne(tableId=table_id, colId=col_id)
+        if col_rec.recalcOnChangesToSelf:
+          self._engine.prevent_recalc(col_obj.node, filled_row_ids, should_prevent=False)
+
     return filled_row_ids
 
   @override_action('BulkAddRecord', '_grist_Triggers')
